@@ -18,6 +18,9 @@ import time
 VERIF = os.path.dirname(os.path.dirname(os.path.abspath(__file__)))
 REPO = os.environ.get("PEGTL_ROOT", "/repo")
 BUILD = os.path.join(VERIF, "build")
+# evidence/ and replays/ of runs against a scratch tree (selftest of the monitors) go elsewhere so that the committed
+# evidence always comes from /repo itself
+OUT = os.environ.get("VERIF_OUT", VERIF)
 NPROC = int(os.environ.get("VERIF_JOBS", str(os.cpu_count() or 4)))
 GUARD = "TAO_PEGTL_VERIF"
 
@@ -431,14 +434,14 @@ def finish(prop, tier, seed, recs, errors, t0, rule, level_text=None, floors=Non
                     samples.append(s)
     if nontrivial_cells is not None:
         nontrivial = sum(1 for k, v in cells.items() if v > 0 and k.startswith(nontrivial_cells))
-    os.makedirs(os.path.join(VERIF, "replays"), exist_ok=True)
-    os.makedirs(os.path.join(VERIF, "evidence"), exist_ok=True)
+    os.makedirs(os.path.join(OUT, "replays"), exist_ok=True)
+    os.makedirs(os.path.join(OUT, "evidence"), exist_ok=True)
     nviol = 0
     nknown = 0
     lines = []
-    for old in os.listdir(os.path.join(VERIF, "replays")):
+    for old in os.listdir(os.path.join(OUT, "replays")):
         if old.startswith(prop + "-"):
-            os.remove(os.path.join(VERIF, "replays", old))
+            os.remove(os.path.join(OUT, "replays", old))
     for key, rs in sorted(viols.items()):
         r = rs[0]
         if key in known_keys:
@@ -446,7 +449,7 @@ def finish(prop, tier, seed, recs, errors, t0, rule, level_text=None, floors=Non
             lines.append("KNOWN-FINDING: property=%s %s [key=%s, seen %d times this run]" % (prop, known_keys[key]["what"], key, violcount.get(key, len(rs))))
             continue
         nviol += 1
-        rp = os.path.join(VERIF, "replays", "%s-%s.json" % (prop, sha(key)[:10]))
+        rp = os.path.join(OUT, "replays", "%s-%s.json" % (prop, sha(key)[:10]))
         rep = {"property": prop, "key": key, "what": r.get("what"), "seed": seed, "tier": tier, "unit": r.get("unit"),
                "binary": r.get("binary"), "args": r.get("uargs"), "shard": r.get("shard"), "nshards": r.get("nshards"), "case": r.get("n"),
                "data_hex": r.get("data"), "label": r.get("label"), "replay": r.get("replay"), "stderr": r.get("stderr"),
@@ -477,7 +480,7 @@ def finish(prop, tier, seed, recs, errors, t0, rule, level_text=None, floors=Non
     ev = {"property_id": prop, "tier": tier, "seed": seed, "level": "exploration", "coverage": cov,
           "assumptions": assumptions or [], "wall_s": round(time.time() - t0, 2), "violations": nviol,
           "tree": tree_hash(), "inconclusive": inconclusive}
-    with open(os.path.join(VERIF, "evidence", "%s.json" % prop), "w") as f:
+    with open(os.path.join(OUT, "evidence", "%s.json" % prop), "w") as f:
         json.dump(ev, f, indent=1)
     if os.environ.get("VERIF_DEBUG"):
         with open(os.path.join(BUILD, "last_cells_%s.json" % prop), "w") as f:
